@@ -79,6 +79,9 @@ Definition set_fields (d : defn) (f : fields) : defn :=
      d_srclines := d_srclines d; d_srcdepth := d_srcdepth d;
      d_fmt := d_fmt d; d_json := d_json d; d_log := d_log d |}.
 
+(* Formatter(nil) / JSONMarshaler(nil) / LogValuer(nil), printed with id 0, reset to the default *)
+Definition pres (id : N) : option N := if N.eqb id 0 then None else Some id.
+
 Definition apply_opt (d : defn) (o : opt) : defn :=
   match o with
   | OField k v => set_fields d (f_set k v (d_fields d))
@@ -107,17 +110,17 @@ Definition apply_opt (d : defn) (o : opt) : defn :=
       {| d_addr := d_addr d; d_root := d_root d; d_org := d_org d; d_kind := d_kind d; d_fields := d_fields d;
          d_notrace := d_notrace d; d_skip := d_skip d; d_depth := d_depth d;
          d_srclines := d_srclines d; d_srcdepth := d_srcdepth d;
-         d_fmt := Some id; d_json := d_json d; d_log := d_log d |}
+         d_fmt := pres id; d_json := d_json d; d_log := d_log d |}
   | OJson id =>
       {| d_addr := d_addr d; d_root := d_root d; d_org := d_org d; d_kind := d_kind d; d_fields := d_fields d;
          d_notrace := d_notrace d; d_skip := d_skip d; d_depth := d_depth d;
          d_srclines := d_srclines d; d_srcdepth := d_srcdepth d;
-         d_fmt := d_fmt d; d_json := Some id; d_log := d_log d |}
+         d_fmt := d_fmt d; d_json := pres id; d_log := d_log d |}
   | OLog id =>
       {| d_addr := d_addr d; d_root := d_root d; d_org := d_org d; d_kind := d_kind d; d_fields := d_fields d;
          d_notrace := d_notrace d; d_skip := d_skip d; d_depth := d_depth d;
          d_srclines := d_srclines d; d_srcdepth := d_srcdepth d;
-         d_fmt := d_fmt d; d_json := d_json d; d_log := Some id |}
+         d_fmt := d_fmt d; d_json := d_json d; d_log := pres id |}
   end.
 
 Definition apply_opts (d : defn) (os : list opt) : defn := fold_left apply_opt os d.
